@@ -7,6 +7,13 @@ from vf import common, srun
 
 def build(sc):
   from vf import bmc_models as M
+  if sc.get('kind') == 'mux':
+    ns = sc.get('num_steps', 255)
+    sysm = M.build_multiplex_system(sc['par'], sc['items'], shared=sc.get('shared', True), num_steps=('NS', ns if isinstance(ns, tuple) else (ns, ns)),
+                                    fail={int(k): tuple(v) for k, v in sc['fail'].items()} if sc.get('fail') else None)
+    drivers = {f'worker{p}': M.WORKER.format(src='TSI' if sc.get('shared', True) else f'SRC{p}') for p in range(sc['par'])}
+    drivers['main'] = M.MAIN_MUX
+    return sysm, drivers
   cap = sc['cap']
   to = sc.get('timeout')
   kw = dict(consumer=sc.get('consumer', 'get'), timeout=None)
@@ -41,6 +48,9 @@ def predicates(sc, sysm):
   import z3
   from vf import bmc_models as M
   pred = sc.get('pred', 'c04')
+  if pred == 'c13':
+    nsd = sysm.objects['DQ'].consts['_num_steps']
+    return (lambda enc, st: z3.Not(M.c13_ok(enc, sysm, st))), (lambda logs, params: M.c13_ok_py(sysm.meta, logs, params, nsd if isinstance(nsd, int) else 255))
   if pred == 'c04':
     return (lambda enc, st: z3.Not(M.c04_ok(enc, sysm, st))), (lambda logs, params: M.c04_ok_py(sysm.meta, logs))
   mode = pred.split(':')[1]
@@ -69,7 +79,8 @@ def worker(job):
              encoded_lines=len(sysm.meta['encoded_lines']), dropped_logging_lines=len(sysm.meta['dropped_lines']), bmc_wall=round(time.time() - t0, 1))
   out['threads'] = [p.name for p in sysm.threads]
   if r.trace is not None:
-    make, logs, holder = M.queue_threads(sysm, r.enc, r.trace, drivers)
+    glue = M.multiplex_threads if sc.get('kind') == 'mux' else M.queue_threads
+    make, logs, holder = glue(sysm, r.enc, r.trace, drivers)
     try:
       rr = R.run_schedule(sysm, r.enc, r.trace, make)
       real_logs = {k: v.entries for k, v in logs.items()}
@@ -126,7 +137,7 @@ def absorb(rep, results, pid):
     if v == 'exhausted':
       rep.obligation(True, name)
       cov['distinct_nontrivial'] += 1
-      rep.witness(True, name + ':all-threads-can-finish')
+      rep.witness(bool(res.get('trace')), name + ':all-threads-can-finish', 'no complete passing execution exists within the bound (parameter constraints unsatisfiable?)')
       if res.get('conformance') is True:
         cov['traces_validated_against_impl'] += 1
       elif res.get('conformance') is False:
@@ -157,7 +168,8 @@ def replay(data):
   enc = B.Encoder(sysm)
   enc._ppset = [set(p) for p in enc.pp]
   trace = data['trace']
-  make, logs, holder = M.queue_threads(sysm, enc, trace, drivers)
+  glue = M.multiplex_threads if sc.get('kind') == 'mux' else M.queue_threads
+  make, logs, holder = glue(sysm, enc, trace, drivers)
   try:
     rr = R.run_schedule(sysm, enc, trace, make)
   except R.Mismatch as e:
